@@ -101,7 +101,7 @@ JNP = jnp_stub.namespace()
 mcmc.jnp = JNP
 mcmc.jtu = jtu_stub.namespace()
 mcmc.jax = StubNS(
-    lax=StubNS(select=lax_stub.select, scan=lax_stub.scan),
+    lax=StubNS(select=lax_stub.select, select_n=lax_stub.select_n, scan=lax_stub.scan),
     grad=grad_stub,
     tree_util=jtu_stub.namespace(),
 )
